@@ -55,6 +55,9 @@ def check_call(ident, args, ufns=None, call=None):
     rel = ident.split('::')[0]
     for gname in getattr(con, 'global_dicts', []):
         env[gname] = getattr(real_module(rel), gname)
+    for txt, gname in getattr(con, 'globals_read', {}).items():
+        if gname not in env:
+            env[gname] = eval(txt, vars(real_module(rel)))
     specrt.set_vals_pool(list(env.values()))
     for name, f in (ufns or {}).items():
         specrt.bind_ufn(name, f)
